@@ -238,6 +238,27 @@ for kid, gate, title, q, v, wname in KNOWN:
     c["gate"] = gate
     CASES["known/%s.json" % kid] = c
 
+
+def conflict_case(sig, conflicts, add0, add1, neutral=None, add2=None):
+    w = world()
+    w["services"][0]["sdl"] += add0
+    w["services"][1]["sdl"] += add1
+    perms = [[0, 1], [1, 0]]
+    if add2 is not None:
+        w["services"].append({"url": "http://svc-2.test/graphql", "sdl": "type Query {\n  ping2: String\n}\n" + add2})
+        perms = [[0,1,2],[0,2,1],[1,0,2],[1,2,0],[2,0,1],[2,1,0]]
+    w["union_sdl"] = ""
+    w.pop("store", None)
+    return {"property": "C05", "signature": sig, "case": {"world": w, "merger": "extend", "conflicts": conflicts, "neutral": neutral or [], "perms": perms}}
+
+CASES["regress/KF-C05-1.json"] = conflict_case("accepted-conflict", ["fieldType"], "type Sig {\n  a: String\n}\n", "type Sig {\n  a: Int\n}\n")
+CASES["regress/KF-C05-1b.json"] = conflict_case("accepted-conflict", ["fieldArgs"], "type SigA {\n  a(x: Int): String\n}\n", "type SigA {\n  a(y: Int): String\n}\n")
+CASES["regress/KF-C05-1c.json"] = conflict_case("accepted-conflict", ["inputFieldDefault"], "input SigD {\n  a: Int = 1\n}\n", "input SigD {\n  a: Int = 2\n}\n")
+TRI_AB = "type Tri {\n  a: String\n  b: String\n}\n"
+CASES["known/KF-C05-2.json"] = conflict_case("order:acceptance", [], TRI_AB, TRI_AB, ["neutralThreeWay"], "type Tri {\n  c: String\n}\n")
+CASES["known/KF-C05-2"+".json"]["title"] = "acceptance of a type declared identically by two services and disjointly by a third depends on the service order"
+CASES["known/KF-C05-2"+".json"]["gate"] = "merge.neutralThreeWay"
+
 if __name__ == "__main__":
     import sys
     sys.path.insert(0, os.path.dirname(os.path.abspath(__file__)))
